@@ -497,28 +497,32 @@ def befpFromRaw (raw : RawBefp) : Out Befp :=
         else if raw.headerHash.length ≠ 0 ∧ raw.headerHash.length ≠ 32 then .err   -- `Hash::try_from(Vec<u8>)`
         else .ok ⟨raw.height, shares, raw.index, axis⟩
 
-/-- the per-share proof loop of `validate` -/
-def befpVerifyShares (vr : NsProof → NsHash → List Bytes → Bytes → Except Nmt.Err Unit)
+/-- the per-share proof loop of `validate`.  `bindPos` (fix eb5a49a): the proof must be for the leaf at the
+    share's own position in the tree it is checked against. -/
+def befpVerifyShares (vr : NsProof → NsHash → List Bytes → Bytes → Except Nmt.Err Unit) (bindPos : Bool)
     (dah : Dah) (axis : Axis) (index : Nat) : List (Option ShareWithProof) → Nat → Out Unit
   | [], _ => .ok ()
-  | none :: rest, i => befpVerifyShares vr dah axis index rest (i + 1)
+  | none :: rest, i => befpVerifyShares vr bindPos dah axis index rest (i + 1)
   | some s :: rest, i =>
-    let root? : Option NsHash :=
+    let sel : Option NsHash × Nat :=
       match axis, s.proofAxis with
-      | .row, .row => dah.rowRoot? index
-      | .row, .col => dah.colRoot? (i % 65536)
-      | .col, .row => dah.rowRoot? (i % 65536)
-      | .col, .col => dah.colRoot? index
-    match root? with
+      | .row, .row => (dah.rowRoot? index, i)
+      | .row, .col => (dah.colRoot? (i % 65536), index)
+      | .col, .row => (dah.rowRoot? (i % 65536), index)
+      | .col, .col => (dah.colRoot? index, i)
+    match sel.1 with
     | none => .panic .slice          -- the `.unwrap()`s "safe because we validated that index is in range"
     | some root =>
-      (ofNmt (vr s.proof root [s.share] s.ns)).bind fun _ =>
-        befpVerifyShares vr dah axis index rest (i + 1)
+      if bindPos && s.proof.start != sel.2 then .err
+      else
+        (ofNmt (vr s.proof root [s.share] s.ns)).bind fun _ =>
+          befpVerifyShares vr bindPos dah axis index rest (i + 1)
 
-/-- namespace of the `n`-th rebuilt leaf: `Namespace::from_raw(&share[..NS_SIZE])` for the first `k` leaves
-    (`unwrapFixed = false`: `.unwrap()`; `true`: `ok none` = "befp is legit"), `PARITY_SHARE` for the rest -/
-def befpLeafNs (unwrapFixed : Bool) (k n : Nat) (sh : Bytes) : Out (Option Bytes) :=
-  if n < k then
+/-- namespace of the `n`-th rebuilt leaf: `Namespace::from_raw(&share[..NS_SIZE])` for the first `k` leaves of an
+    axis that lies in the original data square (`inOds`; before fix 0ccaf23: of every axis), `PARITY_SHARE` for
+    the rest.  `unwrapFixed = false`: `.unwrap()`; `true`: `ok none` = "befp is legit". -/
+def befpLeafNs (unwrapFixed inOds : Bool) (k n : Nat) (sh : Bytes) : Out (Option Bytes) :=
+  if inOds = true ∧ n < k then
     if sh.length < NS_SIZE then .panic .slice
     else
       match Namespace.fromRaw (sh.take NS_SIZE) with
@@ -529,24 +533,28 @@ def befpLeafNs (unwrapFixed : Bool) (k n : Nat) (sh : Bytes) : Out (Option Bytes
 /-- the rebuild loop `for (n, share) in rebuilt_shares.iter().enumerate()`: namespace of the leaf, then
     `nmt.push_leaf` with its order check against `hi` (= `highest_ns`).  `ok none` = an early
     `return Ok(())` ("befp is legit"), `ok (some hs)` = the leaf hashes of the rebuilt tree. -/
-def befpRebuild (unwrapFixed : Bool) (H : HashFn) (k : Nat) : List Bytes → Nat → Bytes → Out (Option (List NsHash))
+def befpRebuild (unwrapFixed inOds : Bool) (H : HashFn) (k : Nat) : List Bytes → Nat → Bytes → Out (Option (List NsHash))
   | [], _, _ => .ok (some [])
   | sh :: rest, n, hi =>
-    match befpLeafNs unwrapFixed k n sh with
+    match befpLeafNs unwrapFixed inOds k n sh with
     | .panic s => .panic s
     | .err => .err
     | .ok none => .ok none
     | .ok (some ns) =>
       if ltB ns hi then .ok none          -- push_leaf refused: "we couldn't rebuild the nmt"
       else
-        match befpRebuild unwrapFixed H k rest (n + 1) ns with
+        match befpRebuild unwrapFixed inOds H k rest (n + 1) ns with
         | .panic s => .panic s
         | .err => .err
         | .ok none => .ok none
         | .ok (some hs) => .ok (some (hashLeaf H ns sh :: hs))
 
-/-- `validate` up to the reconstruction: `ok (rebuilt_shares, ods_width)` -/
-def befpPrefix (vr : NsProof → NsHash → List Bytes → Bytes → Except Nmt.Err Unit)
+/-- `leopard_codec::ORDER` -/
+def LEOPARD_ORDER : Nat := 256
+
+/-- `validate` up to the reconstruction: `ok (rebuilt_shares, ods_width)`.  `capGuard` (fix 93ec7dd): squares
+    wider than the codec supports are rejected. -/
+def befpPrefix (vr : NsProof → NsHash → List Bytes → Bytes → Except Nmt.Err Unit) (bindPos capGuard : Bool)
     (p : Befp) (hh : Nat) (dah : Dah) : Out (List Bytes × Nat) :=
   if hh ≠ p.height then .err
   else if dah.rowRoots.length ≠ dah.colRoots.length then .err
@@ -556,13 +564,16 @@ def befpPrefix (vr : NsProof → NsHash → List Bytes → Bytes → Except Nmt.
       if p.index ≥ w then .err
       else if p.shares.length ≠ w then .err
       else if (p.shares.filter Option.isSome).length < k then .err
+      else if capGuard && decide (w > LEOPARD_ORDER) then .err
       else
-        (befpVerifyShares vr dah p.axis p.index p.shares 0).bind fun _ =>
+        (befpVerifyShares vr bindPos dah p.axis p.index p.shares 0).bind fun _ =>
           .ok (p.shares.map (fun o => match o with | some s => s.share | none => []), k)
 
 /-- `validate` from the reconstruction on -/
 def befpSuffix (unwrapFixed : Bool) (H : HashFn) (c : Codec) (p : Befp) (dah : Dah) (rebuilt : List Bytes) (k : Nat) :
     Out Unit :=
+  -- `axis_in_ods` (fix 0ccaf23, same commit as the unwrap): before it every axis was treated as an ODS axis
+  let inOds : Bool := if unwrapFixed then decide (p.index < k) else true
   match leoReconstruct c rebuilt k with
   | .panic s => .panic s
   | .err => .ok ()                -- "befp is legit"
@@ -571,7 +582,7 @@ def befpSuffix (unwrapFixed : Bool) (H : HashFn) (c : Codec) (p : Befp) (dah : D
     | .panic s => .panic s
     | .err => .ok ()
     | .ok full =>
-      (befpRebuild unwrapFixed H k full 0 (List.replicate NS_SIZE 0)).bind fun hs? =>
+      (befpRebuild unwrapFixed inOds H k full 0 (List.replicate NS_SIZE 0)).bind fun hs? =>
         match hs? with
         | none => .ok ()          -- "befp is legit"
         | some hs =>
@@ -584,16 +595,20 @@ def befpSuffix (unwrapFixed : Bool) (H : HashFn) (c : Codec) (p : Befp) (dah : D
             (ofNmt (computeRoot H true hs)).bind fun root =>
               if root == expected then .err else .ok ()
 
-/-- `FraudProof::validate(header)` for `BadEncodingFraudProof`; `hh` = `header.height()`, `dah` = `header.dah` -/
-def befpValidateWith (unwrapFixed : Bool) (H : HashFn)
+/-- `FraudProof::validate(header)` for `BadEncodingFraudProof`; `hh` = `header.height()`, `dah` = `header.dah`.
+    Flags = which of group D2's three fixes of byzantine.rs are in: `nsFixed` (0ccaf23: no unwrap, parity
+    namespace for lower/right axes), `bindPos` (eb5a49a), `capGuard` (93ec7dd). -/
+def befpValidateWith (nsFixed bindPos capGuard : Bool) (H : HashFn)
     (vr : NsProof → NsHash → List Bytes → Bytes → Except Nmt.Err Unit) (c : Codec)
     (p : Befp) (hh : Nat) (dah : Dah) : Out Unit :=
-  (befpPrefix vr p hh dah).bind fun rk => befpSuffix unwrapFixed H c p dah rk.1 rk.2
+  (befpPrefix vr bindPos capGuard p hh dah).bind fun rk => befpSuffix nsFixed H c p dah rk.1 rk.2
 
-def befpValidateUnfixed (H : HashFn) := befpValidateWith false H (verifyRange H)
-/-- nmt wrappers fixed, the `unwrap` still in place -/
-def befpValidateNmtFixed (H : HashFn) := befpValidateWith false H (safeVerifyRange H)
-def befpValidate (H : HashFn) := befpValidateWith true H (safeVerifyRange H)
+/-- the code at the start of this work -/
+def befpValidateUnfixed (H : HashFn) := befpValidateWith false false false H (verifyRange H)
+/-- nmt wrappers fixed (07cb5f3), byzantine.rs still as it was: the `unwrap` in place -/
+def befpValidateNmtFixed (H : HashFn) := befpValidateWith false false false H (safeVerifyRange H)
+/-- the code as it is now -/
+def befpValidate (H : HashFn) := befpValidateWith true true true H (safeVerifyRange H)
 
 /-! ## header-ex framing (node/src/p2p/header_ex.rs) -/
 
